@@ -48,6 +48,11 @@ CLAIMED = {
    note="trusted: Eigen symmetric eigen-solvers / Cholesky (n<=300); strict inequalities decided with a 1e-10 margin; plain aggregation with the default over-interpolation is a recorded finding for the contraction and positivity clauses",
    technique="deterministic simulation: application histories with injected non-finite/huge inputs against the twice-extracted operator; spectral invariants on the extracted model",
    replay="./build/plain/c02 --replay {path}"),
+ "C01": dict(cat="exploration", ref="4 (C01)",
+   text="Weakest fit of the twelve and stated as such: the statement quantifies over inputs and configurations; what the simulator adds is that every returned (iterations, residual) is produced inside a simulated world - thread counts 1..32 (cross-thread reductions in every inner product, thread-seeded IDR(s) space), seeded schedules, dirtied heap, a warm-up solve on the same object - and is checked against an independent long-double residual computed from the caller's own arrays (with the same preconditioner object for left preconditioning), the iteration budget, and the rule that non-finite outcomes are reported as non-finite. The convergence clause is checked on the narrow isotropic diffusion family with forced multilevel hierarchies and default parameters. Sampling.",
+   note="trusted: the rounding floor delta = 200*(iters+1)*n*u*(|A||x|/|f| + 1) (x100 for left preconditioning); cases whose floor exceeds a tenth of the tolerance are not judged; real double values only (complex/block systems are not generated); plain aggregation with default over-interpolation is a recorded finding for the convergence clause",
+   technique="deterministic simulation: truthfulness invariant over solves executed in simulated thread-count/schedule/heap/reuse worlds, independent long-double residual oracle",
+   replay="./build/plain/c01 --replay {path}"),
 }
 NA_PURE = {
  "C04": "pure function of (matrix, parameters): aggregation is a serial greedy loop, its parallel loops are statically partitioned without reductions; no schedule, fault or history can change the result (thread-count independence of the operators is exercised under C09)",
